@@ -13,6 +13,9 @@ Base/NIter.vos Base/NIter.vok Base/NIter.required_vos: Base/NIter.v
 Chess/Fen.vo Chess/Fen.glob Chess/Fen.v.beautified Chess/Fen.required_vo: Chess/Fen.v Chess/Rules.vo
 Chess/Fen.vio: Chess/Fen.v Chess/Rules.vio
 Chess/Fen.vos Chess/Fen.vok Chess/Fen.required_vos: Chess/Fen.v Chess/Rules.vos
+Chess/FenPlacement.vo Chess/FenPlacement.glob Chess/FenPlacement.v.beautified Chess/FenPlacement.required_vo: Chess/FenPlacement.v Chess/Rules.vo Chess/Fen.vo Chess/TextProofs.vo Base/NIter.vo
+Chess/FenPlacement.vio: Chess/FenPlacement.v Chess/Rules.vio Chess/Fen.vio Chess/TextProofs.vio Base/NIter.vio
+Chess/FenPlacement.vos Chess/FenPlacement.vok Chess/FenPlacement.required_vos: Chess/FenPlacement.v Chess/Rules.vos Chess/Fen.vos Chess/TextProofs.vos Base/NIter.vos
 Chess/History.vo Chess/History.glob Chess/History.v.beautified Chess/History.required_vo: Chess/History.v Chess/Rules.vo
 Chess/History.vio: Chess/History.v Chess/Rules.vio
 Chess/History.vos Chess/History.vok Chess/History.required_vos: Chess/History.v Chess/Rules.vos
